@@ -122,12 +122,13 @@ Proof.
   - exact W.
   - destruct (lookup u (objs s)) as [ob|]; [|exact W].
     destruct (negb (alg || is_key (oty ob))). exact W. destruct (negb data). exact W.
+    destruct (negb (mac_kind_b (oty ob))). exact W.
     destruct (ost ob) as [st|]; [|exact W]. destruct (negb (state_eqb st Active)). exact W.
     destruct (negb (has_bit (omask ob) bMAC_GENERATE)). exact W. destruct cok; exact W.
   - destruct (derive_bases s us). exact W. destruct us. exact W. destruct cok. apply wf_add; assumption. exact W.
   - destruct (lookup u (objs s)) as [ob|]; [|exact W]. destruct (lookup w (objs s)) as [k|]; [|exact W].
     destruct (negb (otype_eqb (oty k) SymmetricKey)). exact W. destruct (negb (is_active k)). exact W.
-    destruct (negb (has_bit (omask k) bWRAP_KEY)). exact W. destruct cok; [destruct (has_key_block (oty ob))|]; exact W.
+    destruct (negb (has_bit (omask k) bWRAP_KEY)). exact W. destruct (negb (has_key_block (oty ob))). exact W. destruct cok; exact W.
 Qed.
 
 Lemma exec_wf : forall h s, wf s -> wf (exec s h).
@@ -182,12 +183,13 @@ Proof.
   - exact W.
   - destruct (lookup u (objs s)) as [ob|]; [|exact W].
     destruct (negb (alg || is_key (oty ob))). exact W. destruct (negb data). exact W.
+    destruct (negb (mac_kind_b (oty ob))). exact W.
     destruct (ost ob) as [st|]; [|exact W]. destruct (negb (state_eqb st Active)). exact W.
     destruct (negb (has_bit (omask ob) bMAC_GENERATE)). exact W. destruct cok; exact W.
   - destruct (derive_bases s us). exact W. destruct us. exact W. destruct cok. apply typed_add; assumption. exact W.
   - destruct (lookup u (objs s)) as [ob|]; [|exact W]. destruct (lookup w (objs s)) as [k|]; [|exact W].
     destruct (negb (otype_eqb (oty k) SymmetricKey)). exact W. destruct (negb (is_active k)). exact W.
-    destruct (negb (has_bit (omask k) bWRAP_KEY)). exact W. destruct cok; [destruct (has_key_block (oty ob))|]; exact W.
+    destruct (negb (has_bit (omask k) bWRAP_KEY)). exact W. destruct (negb (has_key_block (oty ob))). exact W. destruct cok; exact W.
 Qed.
 
 Lemma exec_typed : forall h s, wf_typed s -> wf_typed (exec s h).
@@ -265,6 +267,7 @@ Proof.
     destruct (lookup u (objs s)) as [tg|]; [|inversion H; subst; apply kept_same; assumption].
     destruct (negb (alg || is_key (oty tg))); [inversion H; subst; apply kept_same; assumption|].
     destruct (negb data); [inversion H; subst; apply kept_same; assumption|].
+    destruct (negb (mac_kind_b (oty tg))); [inversion H; subst; apply kept_same; assumption|].
     destruct (ost tg) as [st|]; [|inversion H; subst; apply kept_same; assumption].
     destruct (negb (state_eqb st Active)); [inversion H; subst; apply kept_same; assumption|].
     destruct (negb (has_bit (omask tg) bMAC_GENERATE)); [inversion H; subst; apply kept_same; assumption|].
@@ -279,7 +282,8 @@ Proof.
     destruct (negb (otype_eqb (oty k) SymmetricKey)); [inversion H; subst; apply kept_same; assumption|].
     destruct (negb (is_active k)); [inversion H; subst; apply kept_same; assumption|].
     destruct (negb (has_bit (omask k) bWRAP_KEY)); [inversion H; subst; apply kept_same; assumption|].
-    destruct cok; [destruct (has_key_block (oty tg))|]; inversion H; subst; apply kept_same; assumption.
+    destruct (negb (has_key_block (oty tg))); [inversion H; subst; apply kept_same; assumption|].
+    destruct cok; inversion H; subst; apply kept_same; assumption.
 Qed.
 
 (* ------------------------------------------------------------------ C04 clause 1: transitions *)
@@ -378,13 +382,14 @@ Proof.
   - destruct (lookup u (objs s)) as [ob|]; simpl; [|lia]. destruct (is_active ob); simpl; lia.
   - destruct (lookup u (objs s)) as [ob|]; simpl; [|lia].
     destruct (negb (alg || is_key (oty ob))); simpl; [lia|]. destruct (negb data); simpl; [lia|].
+    destruct (negb (mac_kind_b (oty ob))); simpl; [lia|].
     destruct (ost ob) as [st|]; simpl; [|lia]. destruct (negb (state_eqb st Active)); simpl; [lia|].
     destruct (negb (has_bit (omask ob) bMAC_GENERATE)); simpl; [lia|]. destruct cok; simpl; lia.
   - destruct (derive_bases s us); simpl; [lia|]. destruct us; simpl; [lia|]. destruct cok; simpl; lia.
   - destruct (lookup u (objs s)) as [ob|]; simpl; [|lia]. destruct (lookup w (objs s)) as [k|]; simpl; [|lia].
     destruct (negb (otype_eqb (oty k) SymmetricKey)); simpl; [lia|]. destruct (negb (is_active k)); simpl; [lia|].
     destruct (negb (has_bit (omask k) bWRAP_KEY)); simpl; [lia|].
-    destruct cok; [destruct (has_key_block (oty ob))|]; simpl; lia.
+    destruct (negb (has_key_block (oty ob))); simpl; [lia|]. destruct cok; simpl; lia.
 Qed.
 
 (* an identifier that is below the counter and absent is never present again (needed so that "the object u" is
@@ -408,6 +413,7 @@ Proof.
     rewrite lookup_remove, L. destruct (v =? u); reflexivity.
   - destruct (lookup u (objs s)) as [ob|]; simpl; [|assumption].
     destruct (negb (alg || is_key (oty ob))); simpl; [assumption|]. destruct (negb data); simpl; [assumption|].
+    destruct (negb (mac_kind_b (oty ob))); simpl; [assumption|].
     destruct (ost ob) as [st|]; simpl; [|assumption]. destruct (negb (state_eqb st Active)); simpl; [assumption|].
     destruct (negb (has_bit (omask ob) bMAC_GENERATE)); simpl; [assumption|]. destruct cok; simpl; assumption.
   - destruct (derive_bases s us); simpl; [assumption|]. destruct us; simpl; [assumption|].
@@ -415,7 +421,7 @@ Proof.
   - destruct (lookup u (objs s)) as [ob|]; simpl; [|assumption]. destruct (lookup w (objs s)) as [k|]; simpl; [|assumption].
     destruct (negb (otype_eqb (oty k) SymmetricKey)); simpl; [assumption|]. destruct (negb (is_active k)); simpl; [assumption|].
     destruct (negb (has_bit (omask k) bWRAP_KEY)); simpl; [assumption|].
-    destruct cok; [destruct (has_key_block (oty ob))|]; simpl; assumption.
+    destruct (negb (has_key_block (oty ob))); simpl; [assumption|]. destruct cok; simpl; assumption.
 Qed.
 
 Lemma exec_dead : forall h s v,
@@ -503,60 +509,37 @@ Theorem signature_verify_gated : forall cok s u p r s',
   step cok s (SignatureVerify u p) = (r, s') -> entered r -> s' = s /\ usable s u PublicKey bVERIFY.
 Proof. intros cok s u p r s' H E. simpl in H. inversion H; subst. split. reflexivity. eapply use_key_gated; eauto. Qed.
 
-(* MAC: the code checks state and mask but no object type *)
+Lemma mac_kind_b_iff : forall t, mac_kind_b t = true <-> mac_kind t.
+Proof. intro t. unfold mac_kind. destruct t; simpl; split; intro H; auto; try discriminate; destruct H; discriminate. Qed.
+
+(* MAC: symmetric key or secret data, Active, MAC Generate bit *)
 Theorem mac_gated : forall cok s u alg data r s',
   step cok s (MAC u alg data) = (r, s') -> entered r ->
-  s' = s /\ exists ob, lookup u (objs s) = Some ob /\ ost ob = Some Active /\ has_bit (omask ob) bMAC_GENERATE = true.
+  s' = s /\ exists ob, lookup u (objs s) = Some ob /\ mac_kind (oty ob) /\ ost ob = Some Active
+                       /\ has_bit (omask ob) bMAC_GENERATE = true.
 Proof.
   intros cok s u alg data r s' H E. simpl in H.
   destruct (lookup u (objs s)) as [ob|]; [|inversion H; subst; destruct E as [E|[E|E]]; discriminate].
   destruct (negb (alg || is_key (oty ob))); [inversion H; subst; destruct E as [E|[E|E]]; discriminate|].
   destruct (negb data); [inversion H; subst; destruct E as [E|[E|E]]; discriminate|].
+  destruct (negb (mac_kind_b (oty ob))) eqn:G0; [inversion H; subst; destruct E as [E|[E|E]]; discriminate|].
   destruct (ost ob) as [st|] eqn:St; [|inversion H; subst; destruct E as [E|[E|E]]; discriminate].
   destruct (negb (state_eqb st Active)) eqn:G1; [inversion H; subst; destruct E as [E|[E|E]]; discriminate|].
   destruct (negb (has_bit (omask ob) bMAC_GENERATE)) eqn:G2; [inversion H; subst; destruct E as [E|[E|E]]; discriminate|].
-  apply negb_false_iff in G1, G2. apply state_eqb_eq in G1. subst st.
+  apply negb_false_iff in G0, G1, G2. apply state_eqb_eq in G1. subst st. apply mac_kind_b_iff in G0.
   split. destruct cok; inversion H; reflexivity.
   exists ob. repeat split; assumption.
 Qed.
 
-(* the "right kind" clause for MAC, as the property demands it *)
-Definition mac_right_kind_statement : Prop :=
-  forall cok s u alg data s', step cok s (MAC u alg data) = (OK, s') ->
-  exists ob, lookup u (objs s) = Some ob /\ mac_kind (oty ob).
-
-(* what the code supports: the clause holds whenever the addressed object is not one of the four other stateful types *)
-Theorem mac_right_kind_partial : forall cok s u alg data s',
-  (forall ob, lookup u (objs s) = Some ob ->
-     oty ob <> PublicKey /\ oty ob <> PrivateKey /\ oty ob <> SplitKey /\ oty ob <> Certificate) ->
-  wf_typed s ->
+(* the "right kind" clause for MAC, as the property demands it (refuted before fix d24c06a, which added the
+   object-type guard to _process_mac) *)
+Theorem mac_right_kind : forall cok s u alg data s',
   step cok s (MAC u alg data) = (OK, s') ->
   exists ob, lookup u (objs s) = Some ob /\ mac_kind (oty ob).
 Proof.
-  intros cok s u alg data s' X Ty H.
-  destruct (mac_gated _ _ _ _ _ _ _ H (or_introl eq_refl)) as [_ [ob [L [A _]]]].
-  exists ob. split. assumption.
-  destruct (X _ L) as [N1 [N2 [N3 N4]]]. pose proof (Ty _ _ L) as T. unfold mac_kind.
-  destruct (oty ob); auto; try congruence.
-  (* OpaqueData has no state *) rewrite A in T. discriminate (T eq_refl).
-Qed.
-
-(* ... and fails otherwise: a private key that is Active and has MAC_GENERATE is accepted (known finding) *)
-Theorem mac_right_kind_refuted :
-  exists cok s u alg data s', wf s /\ wf_typed s /\ step cok s (MAC u alg data) = (OK, s') /\
-    exists ob, lookup u (objs s) = Some ob /\ oty ob = PrivateKey.
-Proof.
-  exists true, (exec (empty_store 1) [(Register PrivateKey 128, true); (Activate 1, true)]), 1, true, true.
-  eexists. split. apply exec_wf, wf_empty. split. apply exec_typed, typed_empty.
-  split. vm_compute. reflexivity.
-  eexists. split. vm_compute. reflexivity. reflexivity.
-Qed.
-
-Corollary mac_right_kind_fails : ~ mac_right_kind_statement.
-Proof.
-  intro S. destruct mac_right_kind_refuted as [cok [s [u [alg [data [s' [_ [_ [H [ob [L T]]]]]]]]]]].
-  destruct (S _ _ _ _ _ _ H) as [ob' [L' K]]. rewrite L in L'. inversion L'; subst ob'.
-  rewrite T in K. destruct K; discriminate.
+  intros cok s u alg data s' H.
+  destruct (mac_gated _ _ _ _ _ _ _ H (or_introl eq_refl)) as [_ [ob [L [K _]]]].
+  exists ob. auto.
 Qed.
 
 (* DeriveKey: every base object exists, is of a derivable type and carries the DeriveKey bit; there is at least one *)
@@ -594,9 +577,11 @@ Proof.
     destruct cok; inversion H; subst; split; intro X; try reflexivity; try discriminate; congruence.
 Qed.
 
-(* Get with a key-wrapping specification: the wrapping key is an Active symmetric key with the WrapKey bit *)
+(* Get with a key-wrapping specification: the wrapping key is an Active symmetric key with the WrapKey bit (and the
+   wrapped object is a key or secret data) *)
 Theorem get_wrap_gated : forall cok s u w r s',
-  step cok s (GetWrap u w) = (r, s') -> entered r -> s' = s /\ usable s w SymmetricKey bWRAP_KEY.
+  step cok s (GetWrap u w) = (r, s') -> entered r ->
+  s' = s /\ usable s w SymmetricKey bWRAP_KEY /\ exists ob, lookup u (objs s) = Some ob /\ has_key_block (oty ob) = true.
 Proof.
   intros cok s u w r s' H E. simpl in H.
   destruct (lookup u (objs s)) as [ob|]; [|inversion H; subst; destruct E as [E|[E|E]]; discriminate].
@@ -604,9 +589,11 @@ Proof.
   destruct (negb (otype_eqb (oty k) SymmetricKey)) eqn:G1; [inversion H; subst; destruct E as [E|[E|E]]; discriminate|].
   destruct (negb (is_active k)) eqn:G2; [inversion H; subst; destruct E as [E|[E|E]]; discriminate|].
   destruct (negb (has_bit (omask k) bWRAP_KEY)) eqn:G3; [inversion H; subst; destruct E as [E|[E|E]]; discriminate|].
-  apply negb_false_iff in G1, G2, G3.
-  split. destruct cok; [destruct (has_key_block (oty ob))|]; inversion H; reflexivity.
-  exists k. repeat split; try assumption. apply otype_eqb_eq; assumption. apply is_active_iff; assumption.
+  destruct (negb (has_key_block (oty ob))) eqn:G4; [inversion H; subst; destruct E as [E|[E|E]]; discriminate|].
+  apply negb_false_iff in G1, G2, G3, G4.
+  split. destruct cok; inversion H; reflexivity.
+  split. exists k. repeat split; try assumption. apply otype_eqb_eq; assumption. apply is_active_iff; assumption.
+  exists ob. auto.
 Qed.
 
 (* every gated operation: if the crypto engine is not entered nothing is created; no operation other than the
@@ -627,7 +614,7 @@ Proof.
   - eapply signature_verify_gated; eassumption.
   - eapply mac_gated; eassumption.
   - destruct (derive_key_gated _ _ _ _ _ _ H E) as [A [B _]]. split; assumption.
-  - eapply get_wrap_gated; eassumption.
+  - destruct (get_wrap_gated _ _ _ _ _ _ H E) as [_ [U _]]. exact U.
 Qed.
 
 Theorem crypto_gated : forall cok s o s', step cok s o = (OK, s') -> gate s o.
@@ -648,6 +635,7 @@ Proof.
   - inversion H. auto.
   - destruct (lookup u (objs s)) as [ob|]; [|inversion H; auto].
     destruct (negb (alg || is_key (oty ob))); [inversion H; auto|]. destruct (negb data); [inversion H; auto|].
+    destruct (negb (mac_kind_b (oty ob))); [inversion H; auto|].
     destruct (ost ob) as [st|]; [|inversion H; auto]. destruct (negb (state_eqb st Active)); [inversion H; auto|].
     destruct (negb (has_bit (omask ob) bMAC_GENERATE)); [inversion H; auto|]. destruct cok; inversion H; auto.
   - destruct (derive_bases s us); [inversion H; auto|]. destruct us; [inversion H; auto|].
@@ -655,7 +643,7 @@ Proof.
   - destruct (lookup u (objs s)) as [ob|]; [|inversion H; auto]. destruct (lookup w (objs s)) as [k|]; [|inversion H; auto].
     destruct (negb (otype_eqb (oty k) SymmetricKey)); [inversion H; auto|]. destruct (negb (is_active k)); [inversion H; auto|].
     destruct (negb (has_bit (omask k) bWRAP_KEY)); [inversion H; auto|].
-    destruct cok; [destruct (has_key_block (oty ob))|]; inversion H; auto.
+    destruct (negb (has_key_block (oty ob))); [inversion H; auto|]. destruct cok; inversion H; auto.
 Qed.
 
 (* the same over histories: at whatever point of whatever history, a use that goes ahead went through the gate *)
